@@ -1972,6 +1972,33 @@ func ruleLoadImportAll(c *Ctx, r *R) {
 	if n == 0 {
 		r.undecided("importNud", c.Pos(fd), "no path string is read")
 	}
+	// the name an unnamed import binds is the imported package's declared name: the parser can
+	// only guess it from the path, so the loader — which has both trees — writes the package
+	// clause's name into the import's name token
+	if li := c.Func("loadImports"); li != nil {
+		renames := false
+		for _, h := range c.withHelpers(li) {
+			ast.Inspect(h.Body, func(m ast.Node) bool {
+				as, ok := m.(*ast.AssignStmt)
+				if !ok || len(as.Lhs) != 1 || len(as.Rhs) != 1 {
+					return true
+				}
+				sel, ok := unparen(as.Lhs[0]).(*ast.SelectorExpr)
+				if !ok || sel.Sel.Name != "Text" || !c.isTokenPtr(c.TypeOf(sel.X)) {
+					return true
+				}
+				rs := nosp(c.Src(as.Rhs[0]))
+				if strings.HasSuffix(rs, ".Tokens[0].Text") {
+					renames = true
+				}
+				return true
+			})
+		}
+		r.check(renames, "import name from the package clause", c.Pos(li), "an unnamed import takes the imported package's declared name",
+			"loadImports leaves an unnamed import bound to the parser's guess (the last path element): import \"example.com/lib/v2\" with `package lib` binds v2, so lib.Name() compiles to an undeclared global and fails with a nil dereference at run time — after the packages were initialised, with no load error")
+	} else {
+		r.undecided("import name", "-", "loadImports not found")
+	}
 }
 
 // LOAD-CLEANPATH: the name a package is loaded (and re-loaded) under is the cleaned,
